@@ -14,7 +14,7 @@ Definition sack_handshake_timeout_ns : Z := 500000000.
     the condition is hop.IPAddress.IsPrivate(); the replacement keeps exactly the TTL *)
 Definition redact_visits_every_hop : bool := true.
 Definition redact_condition_is_private_address : bool := true.
-Definition redact_keeps_only_ttl : bool := true.
+Definition redact_keeps_only_ttl : bool := true. (* fields of a redacted hop that keep their value: TTL *)
 
 (** RunTraceroute: a failed multi-query run returns (nil, err); then, in this order, the post-processing steps with their guards *)
 Definition run_error_returns_no_result : bool := true.
